@@ -144,6 +144,31 @@ def Fn.toModule (f : Fn) : Wz.Spec.Wasm.Module :=
 def runSpec (f : Fn) (args : List Nat) (fuel : Nat) : Wz.Spec.Wasm.Outcome :=
   (Wz.Spec.Wasm.invoke f.toModule fuel 0 args {}).1
 
+/-- arguments as the embedder passes them: as many as parameters, each within its type -/
+def ArgsOK (f : Fn) (args : List Nat) : Prop :=
+  args.length = f.params.length ∧ ∀ p ∈ args.zip f.params, p.1 < 2 ^ p.2.bits
+
+instance (f : Fn) (args : List Nat) : Decidable (ArgsOK f args) := by unfold ArgsOK; infer_instance
+
+/-- the specification's trap kinds for the exit codes of the SSA trapping instructions -/
+def trapKind (c : Nat) : String := if c = codeDivByZero then "div0" else "overflow"
+
+/-- the exit code of a trap kind of the fragment -/
+def trapCode (k : String) : Nat := if k = "div0" then codeDivByZero else codeOverflow
+
+/-- an outcome of the reference semantics as an outcome of the SSA semantics (no memory, no calls) -/
+def ofSpec : Wz.Spec.Wasm.Outcome → Outcome
+  | .values vs => .values vs [] []
+  | .trap k => .trap (trapCode k) [] []
+  | .exhausted => .outOfFuel
+
+/-- an outcome of the SSA semantics in the vocabulary of the reference semantics -/
+def ofSsa : Outcome → Wz.Spec.Wasm.Outcome
+  | .values vs _ _ => .values vs
+  | .trap c _ _ => .trap (trapKind c)
+  | .outOfFuel => .exhausted
+  | .error => .trap "malformed-ssa"
+
 /-! ## the fragment's type check -/
 
 /-- `pre` is a prefix of `l` -/
